@@ -4,6 +4,8 @@ use std::fmt::Write as _;
 use std::io::Write as _;
 use std::path::{Path, PathBuf};
 
+pub static LAST_PANIC_LOC: std::sync::Mutex<String> = std::sync::Mutex::new(String::new());
+
 /// splitmix64 — every random choice of a run derives from one seed.
 #[derive(Clone)]
 pub struct Rng(pub u64);
